@@ -18,6 +18,11 @@ def main():
             print(r)
         return
     o = D.run_unit(u)
+    try:
+        for n in u.assemble().info.get('skipped_loop_annotations', []):
+            print('NOTE', n)
+    except Exception:
+        pass
     print('status', o.status, 'verified', o.res and o.res.verified, 'errors', o.res and o.res.errors, 'vac_ok', o.vac_ok,
           'wall %.1fs' % (o.res.wall_s if o.res else 0))
     for r in o.reasons:
